@@ -32,8 +32,17 @@ SameBag(a, b) == Len(a) = Len(b) /\ \A x \in SetOf(a) \cup SetOf(b) : Count(a, x
 JudgeVariant(c, v) ==
   LET want == FoldT(c.tree, SetOf(c.cbs))
       log == v[3]
+      \* embedded: a terminal callback is a lexer callback there - it also sees the tokens the tree builder filters out
+      \* afterwards (pure callbacks: unobservable in the result, and the statement promises once-per-node for the four
+      \* transformer classes only); rule callbacks still run exactly once per node
+      KOnly(sq) == SelectSeq(sq, LAMBDA x : x[1] = "K")
+      COnly(sq) == SelectSeq(sq, LAMBDA x : x[1] = "C")
+      cbv == CbValues(want)
+      onceOk == IF v[1] = "embedded"
+                THEN SameBag(COnly(log), COnly(cbv)) /\ \A x \in SetOf(KOnly(cbv)) : Count(log, x) >= Count(cbv, x)
+                ELSE SameBag(log, cbv)
   IN IF v[2] # want THEN v[1] \o ":result-is-not-the-fold-of-the-callbacks-over-the-tree"
-     ELSE IF ~SameBag(log, CbValues(want)) THEN v[1] \o ":a-callback-did-not-run-exactly-once-per-node"
+     ELSE IF ~onceOk THEN v[1] \o ":a-callback-did-not-run-exactly-once-per-node"
      ELSE IF \E j \in DOMAIN log : \E u \in SetOf(CbValues(log[j])) \ {log[j]} : Count(SubSeq(log, 1, j - 1), u) = 0
           THEN v[1] \o ":parent-callback-ran-before-a-child"
      ELSE "ok"
